@@ -5,6 +5,15 @@ import LcModel.Index.Lemmas
 Subject: `Index.filterBlock`, `Index.rollbackToBlock`, `Index.addFetchedTx` (model of
 `Storage::{filter_block, rollback_to_block, add_fetched_tx}`), tied to the code by `./check C03`.
 The specification is a ground-truth indexer written directly over the block list.
+
+The main theorems come in two forms: over *histories* (`Event`, `runEvents`,
+`WellFormedHistory`), where results of fetches (`add_fetched_tx`, `add_fetched_header`) arrive at
+any point between the filtered blocks — `cells_equal_chain_with_fetches`,
+`outputs_recorded_with_fetches`, `inputs_recorded_with_fetches` — and, as corollaries, over plain
+block lists (`cells_equal_chain`, `outputs_recorded`, `inputs_recorded`).  `filter_block` looks the
+creating transaction of an input up among the earlier transactions of the block first and in the
+store second; `witness_fetched_before_filtered` shows what the opposite order (the pinned tree's)
+did to a transaction fetched before its block was filtered.
 -/
 namespace C03
 open Index
@@ -43,6 +52,38 @@ structure WellFormed (chain : List Block) : Prop where
 
 /-- an empty index with the given registered scripts -/
 def emptyIndex (scripts : List (SKey × Nat)) : St := ⟨scripts, [], [], [], [], []⟩
+
+/-! ## histories with fetch results -/
+
+/-- one step of a history of the store: a block handed to `filter_block`, or the result of a
+fetch (`add_fetched_tx`, `add_fetched_header`) arriving at that point -/
+inductive Event where
+  | block (b : Block)
+  | fetchedTx (tx : Tx) (bn bh : Nat)
+  | fetchedHeader (bn bh : Nat)
+  deriving Repr, DecidableEq
+
+def stepEvent (s : St) : Event → St
+  | .block b => filterBlock s b
+  | .fetchedTx tx bn bh => addFetchedTx s tx bn bh
+  | .fetchedHeader bn bh => addFetchedHeader s bn bh
+
+def runEvents (s : St) (es : List Event) : St := es.foldl stepEvent s
+
+def Event.block? : Event → Option Block
+  | .block b => some b
+  | _ => none
+
+/-- the blocks of a history, in order -/
+def blocksOf (es : List Event) : List Block := es.filterMap Event.block?
+
+/-- the blocks of the history, in order, form a well-formed chain, and every fetched transaction
+is a transaction of that chain — of a block filtered before *or after* the fetch — stored under
+the number of its block (the header hash that comes with it is arbitrary) -/
+structure WellFormedHistory (es : List Event) : Prop where
+  chain : WellFormed (blocksOf es)
+  fetched : ∀ tx bn bh, Event.fetchedTx tx bn bh ∈ es →
+    ∃ b ∈ blocksOf es, b.number = bn ∧ tx ∈ b.txs
 
 /-! ## proof infrastructure -/
 
@@ -244,16 +285,94 @@ private theorem input_earlier {chain pre post : List Block} {b : Block} (hw : We
   · rw [txAt_singleton] at h
     exact Or.inr ⟨h.1.symm, h.2⟩
 
+/-! ### histories -/
+
+private theorem blocksOf_append (l1 l2 : List Event) :
+    blocksOf (l1 ++ l2) = blocksOf l1 ++ blocksOf l2 := by
+  simp [blocksOf]
+
+private theorem blocksOf_map_block (chain : List Block) : blocksOf (chain.map .block) = chain := by
+  induction chain with
+  | nil => rfl
+  | cons b chain ih =>
+    unfold blocksOf at ih ⊢
+    rw [List.map_cons, List.filterMap_cons]
+    simp only [Event.block?]
+    rw [ih]
+
+private theorem runEvents_append (s : St) (l1 l2 : List Event) :
+    runEvents s (l1 ++ l2) = runEvents (runEvents s l1) l2 := by
+  simp [runEvents]
+
+private theorem runEvents_map_block (s : St) (chain : List Block) :
+    runEvents s (chain.map .block) = chain.foldl filterBlock s := by
+  unfold runEvents
+  rw [List.foldl_map]
+  rfl
+
+private theorem wfh_of_chain {chain : List Block} (hw : WellFormed chain) :
+    WellFormedHistory (chain.map .block) where
+  chain := by rw [blocksOf_map_block]; exact hw
+  fetched := by
+    intro tx bn bh hm
+    obtain ⟨b, _, e⟩ := List.mem_map.mp hm
+    cases e
+
+private theorem txAt_mono {pre rest : List Block} {bn txi : Nat} {tx : Tx}
+    (h : TxAt pre bn txi tx) : TxAt (pre ++ rest) bn txi tx :=
+  (txAt_append _ _ _ _ _).mpr (Or.inl h)
+
+/-- the transaction keyspace after `add_fetched_tx` -/
+private theorem addFetchedTx_txs (s : St) (tx : Tx) (bn bh h : Nat) :
+    lookup (addFetchedTx s tx bn bh).txs h =
+      if h = tx.hash ∧ (∀ r, lookup s.txs tx.hash = some r → r.txi = U32_MAX_IDX) then
+        some ⟨bn, U32_MAX_IDX, tx⟩
+      else lookup s.txs h := by
+  unfold addFetchedTx
+  cases hl : lookup s.txs tx.hash with
+  | none =>
+    simp only [Bool.false_eq_true, ↓reduceIte, applyOp, lookup_put]
+    simp
+  | some r0 =>
+    by_cases hr : r0.txi = U32_MAX_IDX
+    · simp only [hr, ne_eq, not_true_eq_false, decide_false, Bool.false_eq_true, ↓reduceIte,
+        applyOp, lookup_put]
+      simp [hr]
+    · simp only [ne_eq, hr, not_false_eq_true, decide_true, ↓reduceIte, applyOp]
+      simp [hr]
+
+private theorem addFetchedTx_cells (s : St) (tx : Tx) (bn bh : Nat) :
+    (addFetchedTx s tx bn bh).cells = s.cells := by
+  unfold addFetchedTx
+  dsimp only
+  split <;> (try split) <;> rfl
+
+private theorem addFetchedTx_hist (s : St) (tx : Tx) (bn bh : Nat) :
+    (addFetchedTx s tx bn bh).hist = s.hist := by
+  unfold addFetchedTx
+  dsimp only
+  split <;> (try split) <;> rfl
+
+private theorem addFetchedTx_scripts (s : St) (tx : Tx) (bn bh : Nat) :
+    (addFetchedTx s tx bn bh).scripts = s.scripts := by
+  unfold addFetchedTx
+  dsimp only
+  split <;> (try split) <;> rfl
+
 /-! ### the transaction keyspace -/
 
-/-- what `filter_block` maintains about stored transactions: a stored transaction is a transaction
-of the chain, stored with its true position; every transaction with an output of a registered
-script is stored -/
-private structure TxInv (scripts : List (SKey × Nat)) (chain : List Block) (s : St) : Prop where
+/-- what `filter_block` and `add_fetched_tx` maintain about stored transactions (`pre` = the
+blocks filtered so far, `full` = all blocks of the history): a stored record holds a transaction
+of the chain under its hash and block number, with its true position if its block has been
+filtered and it matched, or with `u32::MAX` (a fetched copy, possibly of a transaction whose
+block comes later); every transaction of a filtered block with an output of a registered script
+is stored with its true position -/
+private structure TxInv (scripts : List (SKey × Nat)) (full pre : List Block) (s : St) : Prop where
   scripts : s.scripts = scripts
-  sound : ∀ h r, lookup s.txs h = some r → r.tx.hash = h ∧ TxAt chain r.bn r.txi r.tx
+  sound : ∀ h r, lookup s.txs h = some r → r.tx.hash = h ∧
+    (TxAt pre r.bn r.txi r.tx ∨ (r.txi = U32_MAX_IDX ∧ ∃ txi, TxAt full r.bn txi r.tx))
   complete : ∀ (bn txi : Nat) (tx : Tx) (oi : Nat) (o : Output) (k : SKey),
-    TxAt chain bn txi tx → tx.outputs[oi]? = some o → Touches k o →
+    TxAt pre bn txi tx → tx.outputs[oi]? = some o → Touches k o →
     registered s k = true → lookup s.txs tx.hash = some ⟨bn, txi, tx⟩
 
 private theorem txAt_of_split (pre : List Block) {b : Block} {tpre tpost : List Tx} {tx : Tx}
@@ -277,9 +396,9 @@ private theorem putTx_unique {pre : List Block} {b : Block} {s : St} {h : Nat} {
   obtain ⟨e1, e2, e3⟩ := txAt_hash_inj hw h3' h3 (h1'.trans h1.symm)
   cases r; cases r'; simp_all
 
-private theorem txInv_step {scripts : List (SKey × Nat)} {pre : List Block} {b : Block} {s : St}
-    (hw : WellFormed (pre ++ [b])) (inv : TxInv scripts pre s) :
-    TxInv scripts (pre ++ [b]) (filterBlock s b) where
+private theorem txInv_step {scripts : List (SKey × Nat)} {full pre : List Block} {b : Block}
+    {s : St} (hw : WellFormed (pre ++ [b])) (inv : TxInv scripts full pre s) :
+    TxInv scripts full (pre ++ [b]) (filterBlock s b) where
   scripts := by rw [filterBlock_scripts]; exact inv.scripts
   sound := by
     intro h r hl
@@ -289,11 +408,11 @@ private theorem txInv_step {scripts : List (SKey × Nat)} {pre : List Block} {b 
       rw [this] at hl
       cases hl
       obtain ⟨h1, _, h3⟩ := putTx_blockOps hm pre
-      exact ⟨h1, h3⟩
+      exact ⟨h1, Or.inl h3⟩
     · have hno : ∀ r', Op.putTx h r' ∉ blockOps s b := fun r' hm => hex ⟨r', hm⟩
       rw [filterBlock_txs_unch s b h hno] at hl
       obtain ⟨h1, h2⟩ := inv.sound h r hl
-      exact ⟨h1, (txAt_append _ _ _ _ _).mpr (Or.inl h2)⟩
+      exact ⟨h1, h2.imp txAt_mono id⟩
   complete := by
     intro bn txi tx oi o k hat ho ht hr
     rw [filterBlock_registered] at hr
@@ -314,20 +433,84 @@ private theorem txInv_step {scripts : List (SKey × Nat)} {pre : List Block} {b 
           ⟨tpre, tx, tpost, hb, txOp_putTx_of_output s b tpre tx oi o k ho ht hr⟩
       exact filterBlock_txs_put s b _ _ hm (fun r' hm' => putTx_unique hw hm hm')
 
-private theorem txInv_fold (scripts : List (SKey × Nat)) (chain : List Block)
-    (hw : WellFormed chain) :
-    TxInv scripts chain (chain.foldl filterBlock (emptyIndex scripts)) := by
-  induction chain using rev_ind with
+/-- a fetched copy of a chain transaction keeps the invariant: it never replaces a record with a
+true position (other than by an equal record) -/
+private theorem txInv_fetchedTx {scripts : List (SKey × Nat)} {full pre rest : List Block}
+    {s : St} (hwf : WellFormed full) (hc : full = pre ++ rest) (inv : TxInv scripts full pre s)
+    {tx : Tx} {bn txi : Nat} (bh : Nat) (hat : TxAt full bn txi tx) :
+    TxInv scripts full pre (addFetchedTx s tx bn bh) where
+  scripts := by rw [addFetchedTx_scripts]; exact inv.scripts
+  sound := by
+    intro h r hl
+    rw [addFetchedTx_txs] at hl
+    split at hl
+    · rename_i hc'
+      cases hl
+      exact ⟨hc'.1.symm, Or.inr ⟨rfl, txi, hat⟩⟩
+    · exact inv.sound h r hl
+  complete := by
+    intro bn' txi' tx' oi o k hat' ho ht hr
+    have hr' : registered s k = true := by
+      unfold registered at hr ⊢
+      rw [addFetchedTx_scripts] at hr
+      exact hr
+    have hl := inv.complete bn' txi' tx' oi o k hat' ho ht hr'
+    rw [addFetchedTx_txs]
+    split
+    · rename_i hc'
+      have hu : txi' = U32_MAX_IDX := by
+        have := hc'.2 ⟨bn', txi', tx'⟩ (hc'.1 ▸ hl)
+        exact this
+      have hfull : TxAt full bn' txi' tx' := hc ▸ txAt_mono hat'
+      obtain ⟨e1, _, e3⟩ := txAt_hash_inj hwf hfull hat hc'.1
+      rw [e1, e3, hu]
+    · exact hl
+
+private theorem txInv_fetchedHeader {scripts : List (SKey × Nat)} {full pre : List Block}
+    {s : St} (inv : TxInv scripts full pre s) (bn bh : Nat) :
+    TxInv scripts full pre (addFetchedHeader s bn bh) :=
+  ⟨inv.scripts, inv.sound, inv.complete⟩
+
+private theorem txAt_of_mem {chain : List Block} {b : Block} {tx : Tx} (hb : b ∈ chain)
+    (ht : tx ∈ b.txs) : ∃ txi, TxAt chain b.number txi tx := by
+  obtain ⟨txi, hi⟩ := List.mem_iff_getElem?.mp ht
+  exact ⟨txi, b, hb, rfl, hi⟩
+
+/-- the invariant holds after every prefix of a well-formed history -/
+private theorem txInv_events (scripts : List (SKey × Nat)) (es : List Event)
+    (hw : WellFormedHistory es) (es1 es2 : List Event) (he : es = es1 ++ es2) :
+    TxInv scripts (blocksOf es) (blocksOf es1) (runEvents (emptyIndex scripts) es1) := by
+  induction es1 using rev_ind generalizing es2 with
   | h0 =>
     refine ⟨rfl, ?_, ?_⟩
     · intro h r hl
-      simp [emptyIndex, lookup] at hl
+      simp [runEvents, emptyIndex, lookup] at hl
     · intro bn txi tx oi o k hat
       obtain ⟨b, hb, _⟩ := hat
       cases hb
-  | hs pre b ih =>
-    rw [List.foldl_append]
-    exact txInv_step hw (ih (wf_prefix hw))
+  | hs es1 e ih =>
+    have ih := ih (e :: es2) (by rw [he]; simp)
+    have hfull : blocksOf es = blocksOf (es1 ++ [e]) ++ blocksOf es2 := by
+      rw [he, blocksOf_append]
+    rw [runEvents_append]
+    cases e with
+    | block b =>
+      have hb : blocksOf (es1 ++ [Event.block b]) = blocksOf es1 ++ [b] := by
+        rw [blocksOf_append]; rfl
+      rw [hb] at hfull ⊢
+      exact txInv_step (wf_prefix (hfull ▸ hw.chain)) ih
+    | fetchedTx tx bn bh =>
+      have hb : blocksOf (es1 ++ [Event.fetchedTx tx bn bh]) = blocksOf es1 := by
+        rw [blocksOf_append]; simp [blocksOf, Event.block?]
+      rw [hb] at hfull ⊢
+      obtain ⟨b, hbm, rfl, htx⟩ := hw.fetched tx bn bh (by rw [he]; simp)
+      obtain ⟨txi, hat⟩ := txAt_of_mem hbm htx
+      exact txInv_fetchedTx hw.chain hfull ih bh hat
+    | fetchedHeader bn bh =>
+      have hb : blocksOf (es1 ++ [Event.fetchedHeader bn bh]) = blocksOf es1 := by
+        rw [blocksOf_append]; simp [blocksOf, Event.block?]
+      rw [hb]
+      exact txInv_fetchedHeader ih bn bh
 
 private theorem block_hashes_nodup {pre : List Block} {b : Block} (hw : WellFormed (pre ++ [b])) :
     (b.txs.map (·.hash)).Nodup := by
@@ -335,31 +518,58 @@ private theorem block_hashes_nodup {pre : List Block} {b : Block} (hw : WellForm
   rw [List.flatMap_append, List.nodup_append] at this
   simpa using this.2.1
 
-/-- the creating transaction found by `filter_block` is a transaction of the chain so far -/
-private theorem prev_sound {scripts : List (SKey × Nat)} {pre : List Block} {b : Block} {s : St}
-    (inv : TxInv scripts pre s) (tpre : List Tx) {h : Nat} {p : TxRec}
-    (hp : prevOf s (accB b.number 0 [] tpre) h = some p) :
-    p.tx.hash = h ∧
+/-- the creating transaction found by `filter_block`, when one of its outputs touches a registered
+script, is a transaction of the chain so far with its true position — also when a fetched copy
+of it was in the store before this block was filtered (then the in-block map answers, or the
+record was rewritten when its block was filtered) -/
+private theorem prev_sound {scripts : List (SKey × Nat)} {full pre post : List Block} {b : Block}
+    {s : St} (hwf : WellFormed full) (hc : full = pre ++ [b] ++ post)
+    (inv : TxInv scripts full pre s) {tpre tpost : List Tx} {tx : Tx}
+    (hb : b.txs = tpre ++ tx :: tpost) {i : OutPt} (hi : i ∈ tx.inputs) {p : TxRec}
+    (hp : prevOf s (accB b.number 0 [] tpre) i.tx = some p)
+    {oi : Nat} {o : Output} {k : SKey} (ho : p.tx.outputs[oi]? = some o) (ht : Touches k o)
+    (hr : registered s k = true) :
+    p.tx.hash = i.tx ∧
       (TxAt pre p.bn p.txi p.tx ∨ (p.bn = b.number ∧ tpre[p.txi]? = some p.tx)) := by
+  have hw : WellFormed (pre ++ [b]) := wf_prefix (hc ▸ hwf)
   unfold prevOf at hp
-  cases hl : lookup s.txs h with
+  cases hl : lookup (accB b.number 0 [] tpre) i.tx with
   | some r =>
     rw [hl] at hp
     cases hp
-    obtain ⟨h1, h2⟩ := inv.sound h _ hl
-    exact ⟨h1, Or.inl h2⟩
-  | none =>
-    rw [hl] at hp
-    simp only at hp
-    rcases lookup_accB_sound _ _ _ _ _ _ hp with ⟨a, t, c, e, hh, rfl⟩ | h'
+    rcases lookup_accB_sound _ _ _ _ _ _ hl with ⟨a, t, c, e, hh, rfl⟩ | h'
     · refine ⟨hh, Or.inr ⟨rfl, ?_⟩⟩
       rw [e]
       simp
     · simp [lookup] at h'
+  | none =>
+    rw [hl] at hp
+    simp only at hp
+    obtain ⟨h1, h2⟩ := inv.sound _ _ hp
+    refine ⟨h1, ?_⟩
+    rcases h2 with h2 | ⟨_, txi', hat⟩
+    · exact Or.inl h2
+    · obtain ⟨hpos, _⟩ := input_earlier hwf hc hb hi hat h1
+      rcases hpos with hpos | ⟨_, hidx⟩
+      · have hcm := inv.complete _ _ _ _ _ _ hpos ho ht hr
+        rw [h1, hp] at hcm
+        have e : p.txi = txi' := congrArg TxRec.txi (Option.some.inj hcm)
+        rw [e]
+        exact Or.inl hpos
+      · exfalso
+        obtain ⟨a, c, e, rfl⟩ := (getElem?_eq_some_iff_split _ _ _).mp hidx
+        have hnd : ((a ++ p.tx :: c).map (·.hash)).Nodup := by
+          have := block_hashes_nodup hw
+          rw [hb, e, List.map_append, List.nodup_append] at this
+          exact this.1
+        have hfound := lookup_accB_complete b.number a c p.tx 0 [] hnd
+        rw [← e, h1, hl] at hfound
+        cases hfound
 
 /-- …and every chain transaction that matters is found, with its true position -/
-private theorem prev_complete {scripts : List (SKey × Nat)} {pre : List Block} {b : Block} {s : St}
-    (hw : WellFormed (pre ++ [b])) (inv : TxInv scripts pre s) {tpre tpost : List Tx} {tx : Tx}
+private theorem prev_complete {scripts : List (SKey × Nat)} {full pre : List Block} {b : Block}
+    {s : St} (hw : WellFormed (pre ++ [b])) (inv : TxInv scripts full pre s)
+    {tpre tpost : List Tx} {tx : Tx}
     (hb : b.txs = tpre ++ tx :: tpost) {bn' txi' : Nat} {t' : Tx}
     (h : (TxAt pre bn' txi' t' ∧ ∃ (oi : Nat) (o : Output) (k : SKey),
             t'.outputs[oi]? = some o ∧ Touches k o ∧
@@ -367,26 +577,25 @@ private theorem prev_complete {scripts : List (SKey × Nat)} {pre : List Block} 
     prevOf s (accB b.number 0 [] tpre) t'.hash = some ⟨bn', txi', t'⟩ := by
   unfold prevOf
   rcases h with ⟨hat, oi, o, k, ho, ht, hr⟩ | ⟨rfl, hi⟩
-  · rw [inv.complete bn' txi' t' oi o k hat ho ht hr]
-  · have hnone : lookup s.txs t'.hash = none := by
-      cases hl : lookup s.txs t'.hash with
-      | none => rfl
-      | some r =>
-        exfalso
-        obtain ⟨h1, h2⟩ := inv.sound _ r hl
-        have hat' : TxAt (pre ++ [b]) b.number txi' t' := by
+  · have hnone : lookup (accB b.number 0 [] tpre) t'.hash = none := by
+      rw [lookup_accB_notin]
+      · rfl
+      · intro hm
+        obtain ⟨t'', ht'', hh''⟩ := List.mem_map.mp hm
+        obtain ⟨j, hj⟩ := List.mem_iff_getElem?.mp ht''
+        have hat'' : TxAt (pre ++ [b]) b.number j t'' := by
           rw [txAt_append, txAt_singleton]
           right
           refine ⟨rfl, ?_⟩
-          rw [hb, List.getElem?_append_left (List.getElem?_eq_some_iff.mp hi).1]
-          exact hi
+          rw [hb, List.getElem?_append_left (List.getElem?_eq_some_iff.mp hj).1]
+          exact hj
         obtain ⟨e1, _, _⟩ :=
-          txAt_hash_inj hw ((txAt_append _ _ _ _ _).mpr (Or.inl h2)) hat' h1
-        have := txAt_lt hw h2
+          txAt_hash_inj hw ((txAt_append _ _ _ _ _).mpr (Or.inl hat)) hat'' hh''.symm
+        have := txAt_lt hw hat
         omega
     rw [hnone]
-    simp only
-    obtain ⟨a, c, e, rfl⟩ := (getElem?_eq_some_iff_split _ _ _).mp hi
+    exact inv.complete bn' txi' t' oi o k hat ho ht hr
+  · obtain ⟨a, c, e, rfl⟩ := (getElem?_eq_some_iff_split _ _ _).mp hi
     have hnd : ((a ++ t' :: c).map (·.hash)).Nodup := by
       have := block_hashes_nodup hw
       rw [hb, e, List.map_append, List.nodup_append] at this
@@ -421,73 +630,125 @@ private theorem registered_of_mem {scripts : List (SKey × Nat)} {s : St} (hs : 
   rw [registered_iff, hs]
   exact hk
 
-private theorem outputs_recorded_aux (scripts : List (SKey × Nat)) (k : SKey)
-    (hk : k ∈ scripts.map (·.1)) (chain : List Block) (hw : WellFormed chain)
+private theorem blocksOf_snoc_block (es1 : List Event) (b : Block) :
+    blocksOf (es1 ++ [Event.block b]) = blocksOf es1 ++ [b] := by
+  rw [blocksOf_append]; rfl
+
+private theorem blocksOf_snoc_fetchedTx (es1 : List Event) (tx : Tx) (bn bh : Nat) :
+    blocksOf (es1 ++ [Event.fetchedTx tx bn bh]) = blocksOf es1 := by
+  rw [blocksOf_append]; simp [blocksOf, Event.block?]
+
+private theorem blocksOf_snoc_fetchedHeader (es1 : List Event) (bn bh : Nat) :
+    blocksOf (es1 ++ [Event.fetchedHeader bn bh]) = blocksOf es1 := by
+  rw [blocksOf_append]; simp [blocksOf, Event.block?]
+
+private theorem hist_step {scripts : List (SKey × Nat)} {full pre : List Block} {b : Block}
+    {s : St} {k : SKey} (hw : WellFormed (pre ++ [b])) (inv : TxInv scripts full pre s)
+    (hreg : registered s k = true)
+    (ih : ∀ bn txi oi h, lookup s.hist ⟨k, bn, txi, oi, true⟩ = some h ↔
+      ∃ o tx, TxAt pre bn txi tx ∧ tx.hash = h ∧ tx.outputs[oi]? = some o ∧ Touches k o)
     (bn txi oi h : Nat) :
-    lookup (chain.foldl filterBlock (emptyIndex scripts)).hist ⟨k, bn, txi, oi, true⟩ = some h ↔
-      ∃ o tx, TxAt chain bn txi tx ∧ tx.hash = h ∧ tx.outputs[oi]? = some o ∧ Touches k o := by
-  induction chain using rev_ind generalizing bn txi oi h with
+    lookup (filterBlock s b).hist ⟨k, bn, txi, oi, true⟩ = some h ↔
+      ∃ o tx, TxAt (pre ++ [b]) bn txi tx ∧ tx.hash = h ∧ tx.outputs[oi]? = some o ∧
+        Touches k o := by
+  have _ := inv
+  by_cases hex : ∃ h', Op.putHist ⟨k, bn, txi, oi, true⟩ h' ∈ blockOps s b
+  · obtain ⟨h', hm⟩ := hex
+    obtain ⟨rfl, tx, o, hi, hh, ho, ht, hr⟩ := (putHist_out_blockOps _ _ _ _ _ _ _).mp hm
+    have hat : TxAt (pre ++ [b]) b.number txi tx :=
+      (txAt_append _ _ _ _ _).mpr (Or.inr ((txAt_singleton _ _ _ _).mpr ⟨rfl, hi⟩))
+    have huniq : ∀ h'', Op.putHist ⟨k, b.number, txi, oi, true⟩ h'' ∈ blockOps s b → h'' = h' := by
+      intro h'' hm''
+      obtain ⟨_, tx'', o'', hi'', hh'', _⟩ := (putHist_out_blockOps _ _ _ _ _ _ _).mp hm''
+      rw [hi] at hi''
+      cases hi''
+      exact hh''.symm.trans hh
+    rw [filterBlock_hist_put s b _ h' hm huniq]
+    constructor
+    · intro e
+      cases e
+      exact ⟨o, tx, hat, hh, ho, ht⟩
+    · rintro ⟨o', tx', hat', hh', _⟩
+      have := txAt_fun hw hat hat'
+      subst this
+      rw [← hh, ← hh']
+  · have hno : ∀ h', Op.putHist ⟨k, bn, txi, oi, true⟩ h' ∉ blockOps s b :=
+      fun h' hm => hex ⟨h', hm⟩
+    rw [filterBlock_hist_unch s b _ hno, ih]
+    constructor
+    · rintro ⟨o, tx, hat, rest⟩
+      exact ⟨o, tx, (txAt_append _ _ _ _ _).mpr (Or.inl hat), rest⟩
+    · rintro ⟨o, tx, hat, hh, ho, ht⟩
+      rcases (txAt_append _ _ _ _ _).mp hat with hat' | hat'
+      · exact ⟨o, tx, hat', hh, ho, ht⟩
+      · exfalso
+        rw [txAt_singleton] at hat'
+        exact hno h ((putHist_out_blockOps _ _ _ _ _ _ _).mpr
+          ⟨hat'.1.symm, tx, o, hat'.2, hh, ho, ht, hreg⟩)
+
+private theorem outputs_recorded_aux (scripts : List (SKey × Nat)) (k : SKey)
+    (hk : k ∈ scripts.map (·.1)) (es : List Event) (hw : WellFormedHistory es) :
+    ∀ es1 es2 : List Event, es = es1 ++ es2 → ∀ bn txi oi h : Nat,
+    (lookup (runEvents (emptyIndex scripts) es1).hist ⟨k, bn, txi, oi, true⟩ = some h ↔
+      ∃ o tx, TxAt (blocksOf es1) bn txi tx ∧ tx.hash = h ∧ tx.outputs[oi]? = some o ∧
+        Touches k o) := by
+  intro es1
+  induction es1 using rev_ind with
   | h0 =>
-    simp only [List.foldl_nil, emptyIndex, lookup_nil, reduceCtorEq, false_iff]
+    intro es2 he bn txi oi h
+    simp only [runEvents, List.foldl_nil, emptyIndex, lookup_nil, reduceCtorEq, false_iff]
     rintro ⟨o, tx, ⟨b, hb, _⟩, _⟩
     cases hb
-  | hs pre b ih =>
-    have hwp := wf_prefix hw
-    have inv := txInv_fold scripts pre hwp
+  | hs es1 e ih =>
+    intro es2 he bn txi oi h
+    have he' : es = es1 ++ e :: es2 := by rw [he]; simp
+    have ih := ih (e :: es2) he'
+    have inv := txInv_events scripts es hw es1 (e :: es2) he'
     have hreg := registered_of_mem inv.scripts hk
-    rw [List.foldl_append]
-    simp only [List.foldl_cons, List.foldl_nil]
-    generalize pre.foldl filterBlock (emptyIndex scripts) = s at ih inv hreg
-    by_cases hex : ∃ h', Op.putHist ⟨k, bn, txi, oi, true⟩ h' ∈ blockOps s b
-    · obtain ⟨h', hm⟩ := hex
-      obtain ⟨rfl, tx, o, hi, hh, ho, ht, hr⟩ := (putHist_out_blockOps _ _ _ _ _ _ _).mp hm
-      have hat : TxAt (pre ++ [b]) b.number txi tx :=
-        (txAt_append _ _ _ _ _).mpr (Or.inr ((txAt_singleton _ _ _ _).mpr ⟨rfl, hi⟩))
-      have huniq : ∀ h'', Op.putHist ⟨k, b.number, txi, oi, true⟩ h'' ∈ blockOps s b → h'' = h' := by
-        intro h'' hm''
-        obtain ⟨_, tx'', o'', hi'', hh'', _⟩ := (putHist_out_blockOps _ _ _ _ _ _ _).mp hm''
-        rw [hi] at hi''
-        cases hi''
-        exact hh''.symm.trans hh
-      rw [filterBlock_hist_put s b _ h' hm huniq]
-      constructor
-      · intro e
-        cases e
-        exact ⟨o, tx, hat, hh, ho, ht⟩
-      · rintro ⟨o', tx', hat', hh', _⟩
-        have := txAt_fun hw hat hat'
-        subst this
-        rw [← hh, ← hh']
-    · have hno : ∀ h', Op.putHist ⟨k, bn, txi, oi, true⟩ h' ∉ blockOps s b :=
-        fun h' hm => hex ⟨h', hm⟩
-      rw [filterBlock_hist_unch s b _ hno, ih hwp]
-      constructor
-      · rintro ⟨o, tx, hat, rest⟩
-        exact ⟨o, tx, (txAt_append _ _ _ _ _).mpr (Or.inl hat), rest⟩
-      · rintro ⟨o, tx, hat, hh, ho, ht⟩
-        rcases (txAt_append _ _ _ _ _).mp hat with hat' | hat'
-        · exact ⟨o, tx, hat', hh, ho, ht⟩
-        · exfalso
-          rw [txAt_singleton] at hat'
-          exact hno h ((putHist_out_blockOps _ _ _ _ _ _ _).mpr
-            ⟨hat'.1.symm, tx, o, hat'.2, hh, ho, ht, hreg⟩)
+    have hfull : blocksOf es = blocksOf (es1 ++ [e]) ++ blocksOf es2 := by
+      rw [he, blocksOf_append]
+    rw [runEvents_append]
+    generalize runEvents (emptyIndex scripts) es1 = s at ih inv hreg
+    cases e with
+    | block b =>
+      rw [blocksOf_snoc_block] at hfull ⊢
+      exact hist_step (wf_prefix (hfull ▸ hw.chain)) inv hreg ih bn txi oi h
+    | fetchedTx tx bn' bh =>
+      rw [blocksOf_snoc_fetchedTx]
+      change lookup (addFetchedTx s tx bn' bh).hist _ = _ ↔ _
+      rw [addFetchedTx_hist]
+      exact ih bn txi oi h
+    | fetchedHeader bn' bh =>
+      rw [blocksOf_snoc_fetchedHeader]
+      exact ih bn txi oi h
 
 private theorem putHist_bn {s : St} {b : Block} {hk : HistKey} {h : Nat}
     (hm : Op.putHist hk h ∈ blockOps s b) : hk.bn = b.number := by
   obtain ⟨tpre, tx, tpost, _, hop⟩ := (mem_blockOps' _ _ _).mp hm
   exact ((txOp_putHist _ _ _ _ _ _).mp hop).2.1
 
-/-- later blocks do not touch the history entries of block number `hk.bn` -/
-private theorem hist_preserved (hk : HistKey) (post : List Block) (s : St)
-    (hn : ∀ b' ∈ post, b'.number ≠ hk.bn) :
-    lookup (post.foldl filterBlock s).hist hk = lookup s.hist hk := by
+/-- later blocks and fetches do not touch the history entries of block number `hk.bn` -/
+private theorem hist_preserved (hk : HistKey) (post : List Event) (s : St)
+    (hn : ∀ b' ∈ blocksOf post, b'.number ≠ hk.bn) :
+    lookup (runEvents s post).hist hk = lookup s.hist hk := by
   induction post generalizing s with
   | nil => rfl
-  | cons b' post ih =>
-    rw [List.foldl_cons, ih _ (fun b'' hb'' => hn b'' (List.mem_cons_of_mem _ hb''))]
-    apply filterBlock_hist_unch
-    intro h hm
-    exact hn b' List.mem_cons_self (putHist_bn hm).symm
+  | cons e post ih =>
+    have happ : blocksOf (e :: post) = blocksOf [e] ++ blocksOf post := blocksOf_append [e] post
+    have hn' : ∀ b' ∈ blocksOf post, b'.number ≠ hk.bn := fun b' hb' =>
+      hn b' (by rw [happ]; exact List.mem_append_right _ hb')
+    change lookup (runEvents (stepEvent s e) post).hist hk = _
+    rw [ih _ hn']
+    cases e with
+    | block b =>
+      apply filterBlock_hist_unch
+      intro h hm
+      exact hn b (by rw [happ]; exact List.mem_append_left _ (by simp [blocksOf, Event.block?]))
+        (putHist_bn hm).symm
+    | fetchedTx tx bn bh =>
+      change lookup (addFetchedTx s tx bn bh).hist hk = _
+      rw [addFetchedTx_hist]
+    | fetchedHeader bn bh => rfl
 
 /-! ### the cell keyspace -/
 
@@ -507,16 +768,18 @@ private theorem putCell_blockOps (s : St) (b : Block) (ck : CellKey) (h : Nat) :
     exact ⟨tpre, tx, tpost, hb, (txOp_putCell _ _ _ _ _ _).mpr ⟨hh, h1, hl.symm, o, ho, ht, hr⟩⟩
 
 /-- a cell created in an earlier block is deleted by block `b` iff `b` spends its out point -/
-private theorem delCell_old {scripts : List (SKey × Nat)} {pre : List Block} {b : Block} {s : St}
-    (hw : WellFormed (pre ++ [b])) (inv : TxInv scripts pre s) {ck : CellKey} {tx0 : Tx}
+private theorem delCell_old {scripts : List (SKey × Nat)} {full pre post : List Block} {b : Block}
+    {s : St} (hwf : WellFormed full) (hc : full = pre ++ [b] ++ post)
+    (inv : TxInv scripts full pre s) {ck : CellKey} {tx0 : Tx}
     {o : Output} (hat : TxAt pre ck.bn ck.txi tx0) (ho : tx0.outputs[ck.oi]? = some o)
     (ht : Touches ck.s o) (hr : registered s ck.s = true) :
     Op.delCell ck ∈ blockOps s b ↔ ∃ tx ∈ b.txs, (⟨tx0.hash, ck.oi⟩ : OutPt) ∈ tx.inputs := by
+  have hw : WellFormed (pre ++ [b]) := wf_prefix (hc ▸ hwf)
   rw [mem_blockOps']
   constructor
   · rintro ⟨tpre, tx, tpost, hb, hop⟩
     obtain ⟨ii, i, p, o', hi, hp, ho', ht', hr', h1, h2, h3⟩ := (txOp_delCell _ _ _ _ _).mp hop
-    obtain ⟨hh, hpos⟩ := prev_sound inv tpre hp
+    obtain ⟨hh, hpos⟩ := prev_sound hwf hc inv hb (List.mem_of_getElem? hi) hp ho' ht' hr'
     refine ⟨tx, by rw [hb]; simp, ?_⟩
     rcases hpos with hpos | ⟨hbn, _⟩
     · rw [← h1, ← h2] at hpos
@@ -555,19 +818,23 @@ private theorem spent_later {chain : List Block} (hw : WellFormed chain) {bn txi
     omega
 
 /-- a cell created by transaction `tx` of block `b` is deleted by the rest of the batch iff a
-later transaction of `b` spends its out point -/
-private theorem delCell_post {scripts : List (SKey × Nat)} {pre : List Block} {b : Block} {s : St}
-    (hw : WellFormed (pre ++ [b])) (inv : TxInv scripts pre s) {tpre tpost : List Tx} {tx : Tx}
+later transaction of `b` spends its out point — whatever record a fetch left in the store under
+`tx.hash`, because the in-block map is asked first -/
+private theorem delCell_post {scripts : List (SKey × Nat)} {full pre post : List Block} {b : Block}
+    {s : St} (hwf : WellFormed full) (hc : full = pre ++ [b] ++ post)
+    (inv : TxInv scripts full pre s) {tpre tpost : List Tx} {tx : Tx}
     (hb : b.txs = tpre ++ tx :: tpost) {ck : CellKey} {o : Output}
     (h1 : ck.bn = b.number) (h2 : ck.txi = tpre.length) (ho : tx.outputs[ck.oi]? = some o)
     (ht : Touches ck.s o) (hr : registered s ck.s = true) :
     Op.delCell ck ∈ blockOps.go s b (tpre.length + 1) (accB b.number 0 [] (tpre ++ [tx])) tpost ↔
       ∃ tx' ∈ tpost, (⟨tx.hash, ck.oi⟩ : OutPt) ∈ tx'.inputs := by
+  have hw : WellFormed (pre ++ [b]) := wf_prefix (hc ▸ hwf)
   rw [mem_go_post]
   constructor
   · rintro ⟨a, tx', c, e, hop⟩
     obtain ⟨ii, i, p, o', hi, hp, ho', ht', hr', e1, e2, e3⟩ := (txOp_delCell _ _ _ _ _).mp hop
-    obtain ⟨hh, hpos⟩ := prev_sound inv (tpre ++ tx :: a) hp
+    have hb2 : b.txs = (tpre ++ tx :: a) ++ tx' :: c := by rw [hb, e]; simp
+    obtain ⟨hh, hpos⟩ := prev_sound hwf hc inv hb2 (List.mem_of_getElem? hi) hp ho' ht' hr'
     refine ⟨tx', by rw [e]; simp, ?_⟩
     rcases hpos with hpos | ⟨_, hidx⟩
     · have := txAt_lt hw hpos
@@ -618,12 +885,14 @@ private def Live (chain : List Block) (k : SKey) (ck : CellKey) (h : Nat) : Prop
   ∃ tx o, TxAt chain ck.bn ck.txi tx ∧ tx.hash = h ∧ tx.outputs[ck.oi]? = some o ∧
     Touches k o ∧ (⟨h, ck.oi⟩ : OutPt) ∉ spentBy chain
 
-private theorem cells_step {scripts : List (SKey × Nat)} {pre : List Block} {b : Block} {s : St}
-    {k : SKey} (hw : WellFormed (pre ++ [b])) (inv : TxInv scripts pre s)
+private theorem cells_step {scripts : List (SKey × Nat)} {full pre post : List Block} {b : Block}
+    {s : St} {k : SKey} (hwf : WellFormed full) (hc : full = pre ++ [b] ++ post)
+    (inv : TxInv scripts full pre s)
     (hreg : registered s k = true)
     (ih : ∀ ck h, ck.s = k → (lookup s.cells ck = some h ↔ Live pre k ck h))
     (ck : CellKey) (h : Nat) (hck : ck.s = k) :
     lookup (filterBlock s b).cells ck = some h ↔ Live (pre ++ [b]) k ck h := by
+  have hw : WellFormed (pre ++ [b]) := wf_prefix (hc ▸ hwf)
   subst hck
   by_cases hbn : ck.bn = b.number
   · -- a key of this block
@@ -650,7 +919,7 @@ private theorem cells_step {scripts : List (SKey × Nat)} {pre : List Block} {b 
         simp only [List.length_append, List.length_cons] at h2
         omega
       obtain ⟨hspent, hlive⟩ := filterBlock_cells_created s b tpre tpost tx hb ck hput' hnoput
-      rw [delCell_post hw inv hb hbn hl.symm ho ht hr] at hspent hlive
+      rw [delCell_post hwf hc inv hb hbn hl.symm ho ht hr] at hspent hlive
       have hat : TxAt (pre ++ [b]) ck.bn ck.txi tx := by
         rw [hbn, ← hl]
         exact txAt_of_split pre hb
@@ -706,7 +975,7 @@ private theorem cells_step {scripts : List (SKey × Nat)} {pre : List Block} {b 
             exact absurd h'.1.symm hbn
         refine ⟨⟨tx, o, hat', rfl, ho, ht, hns.1⟩, ?_⟩
         intro hd
-        obtain ⟨tx', htx', hin⟩ := (delCell_old hw inv hat' ho ht hreg).mp hd
+        obtain ⟨tx', htx', hin⟩ := (delCell_old hwf hc inv hat' ho ht hreg).mp hd
         apply hns.2
         rw [mem_spentBy]
         exact ⟨b, by simp, tx', htx', hin⟩
@@ -720,7 +989,7 @@ private theorem cells_step {scripts : List (SKey × Nat)} {pre : List Block} {b 
         obtain ⟨b', hb', tx', htx', hin⟩ := hs
         have : b' = b := by simpa using hb'
         subst this
-        exact hd ((delCell_old hw inv hat ho ht hreg).mpr ⟨tx', htx', hin⟩)
+        exact hd ((delCell_old hwf hc inv hat ho ht hreg).mpr ⟨tx', htx', hin⟩)
     rw [key]
     by_cases hd : Op.delCell ck ∈ blockOps s b
     · rw [filterBlock_cells_noput_del s b ck hno hd]
@@ -734,48 +1003,70 @@ private theorem cells_step {scripts : List (SKey × Nat)} {pre : List Block} {b 
 
 /-! ## the index equals the chain -/
 
-/-- **C03 (live cells).**  Index every block of a well-formed chain in order, starting from an
-empty index with any set of registered scripts: for every registered script the live-cell
-keyspace holds exactly the cells that are live on the chain — right out point, creating block
-and position — no spent or phantom cell, none missing. -/
-theorem cells_equal_chain (scripts : List (SKey × Nat)) (chain : List Block)
-    (hw : WellFormed chain) (hs : (scripts.map (·.1)).Nodup) (k : SKey) (hk : k ∈ scripts.map (·.1))
+private theorem cells_events (scripts : List (SKey × Nat)) (k : SKey)
+    (hk : k ∈ scripts.map (·.1)) (es : List Event) (hw : WellFormedHistory es) :
+    ∀ es1 es2 : List Event, es = es1 ++ es2 → ∀ ck h, ck.s = k →
+      (lookup (runEvents (emptyIndex scripts) es1).cells ck = some h ↔
+        Live (blocksOf es1) k ck h) := by
+  intro es1
+  induction es1 using rev_ind with
+  | h0 =>
+    intro _ _ ck h _
+    simp only [runEvents, List.foldl_nil, emptyIndex, lookup_nil, reduceCtorEq, false_iff]
+    rintro ⟨tx, o, ⟨b, hb, _⟩, _⟩
+    cases hb
+  | hs es1 e ih =>
+    intro es2 he ck h hck
+    have he' : es = es1 ++ e :: es2 := by rw [he]; simp
+    have ih := ih (e :: es2) he'
+    have inv := txInv_events scripts es hw es1 (e :: es2) he'
+    have hreg := registered_of_mem inv.scripts hk
+    have hfull : blocksOf es = blocksOf (es1 ++ [e]) ++ blocksOf es2 := by
+      rw [he, blocksOf_append]
+    rw [runEvents_append]
+    generalize runEvents (emptyIndex scripts) es1 = s at ih inv hreg
+    cases e with
+    | block b =>
+      rw [blocksOf_snoc_block] at hfull ⊢
+      exact cells_step hw.chain hfull inv hreg ih ck h hck
+    | fetchedTx tx bn' bh =>
+      rw [blocksOf_snoc_fetchedTx]
+      change lookup (addFetchedTx s tx bn' bh).cells _ = _ ↔ _
+      rw [addFetchedTx_cells]
+      exact ih ck h hck
+    | fetchedHeader bn' bh =>
+      rw [blocksOf_snoc_fetchedHeader]
+      exact ih ck h hck
+
+/-- **C03 (live cells, histories with fetches).**  Start from an empty index with any set of
+registered scripts and run a well-formed history: blocks of a well-formed chain handed to
+`filter_block` in order, with results of `fetch_transaction` / `fetch_header` (`add_fetched_tx`,
+`add_fetched_header`) arriving at any point — in particular a transaction fetched *before* its
+block is filtered.  For every registered script the live-cell keyspace holds exactly the cells
+that are live on the chain — right out point, creating block and position — no spent or phantom
+cell, none missing. -/
+theorem cells_equal_chain_with_fetches (scripts : List (SKey × Nat)) (es : List Event)
+    (hw : WellFormedHistory es) (k : SKey) (hk : k ∈ scripts.map (·.1))
     (ck : CellKey) (h : Nat) :
-    (ck.s = k ∧ lookup (chain.foldl filterBlock (emptyIndex scripts)).cells ck = some h) ↔
-      (ck, h) ∈ liveCells chain k := by
-  have _ := hs  -- not needed: duplicate registrations are harmless
-  have aux : ∀ chain : List Block, WellFormed chain → ∀ ck h, ck.s = k →
-      (lookup (chain.foldl filterBlock (emptyIndex scripts)).cells ck = some h ↔
-        Live chain k ck h) := by
-    intro chain
-    induction chain using rev_ind with
-    | h0 =>
-      intro _ ck h _
-      simp only [List.foldl_nil, emptyIndex, lookup_nil, reduceCtorEq, false_iff]
-      rintro ⟨tx, o, ⟨b, hb, _⟩, _⟩
-      cases hb
-    | hs pre b ih =>
-      intro hw ck h hck
-      have hwp := wf_prefix hw
-      have inv := txInv_fold scripts pre hwp
-      rw [List.foldl_append]
-      simp only [List.foldl_cons, List.foldl_nil]
-      exact cells_step hw inv (registered_of_mem inv.scripts hk) (ih hwp) ck h hck
+    (ck.s = k ∧ lookup (runEvents (emptyIndex scripts) es).cells ck = some h) ↔
+      (ck, h) ∈ liveCells (blocksOf es) k := by
+  have aux := cells_events scripts k hk es hw es [] (by simp) ck h
   rw [mem_liveCells]
   constructor
   · rintro ⟨hck, hl⟩
-    exact ⟨hck, (aux chain hw ck h hck).mp hl⟩
+    exact ⟨hck, (aux hck).mp hl⟩
   · rintro ⟨hck, hl⟩
-    exact ⟨hck, (aux chain hw ck h hck).mpr hl⟩
+    exact ⟨hck, (aux hck).mpr hl⟩
 
-/-- **C03 (activity).**  Every output of the chain that touches a registered script has its
-history entry, and every history entry of kind output is such an output. -/
-theorem outputs_recorded (scripts : List (SKey × Nat)) (chain : List Block)
-    (hw : WellFormed chain) (k : SKey) (hk : k ∈ scripts.map (·.1))
+/-- **C03 (activity, histories with fetches).**  Every output of the chain that touches a
+registered script has its history entry, and every history entry of kind output is such an
+output — whatever fetch results arrived in between. -/
+theorem outputs_recorded_with_fetches (scripts : List (SKey × Nat)) (es : List Event)
+    (hw : WellFormedHistory es) (k : SKey) (hk : k ∈ scripts.map (·.1))
     (bn txi oi h : Nat) :
-    lookup (chain.foldl filterBlock (emptyIndex scripts)).hist ⟨k, bn, txi, oi, true⟩ = some h ↔
-      ∃ o, (⟨h, oi⟩, (bn, txi, o)) ∈ createdBy chain ∧ touches k o = true := by
-  rw [outputs_recorded_aux scripts k hk chain hw]
+    lookup (runEvents (emptyIndex scripts) es).hist ⟨k, bn, txi, oi, true⟩ = some h ↔
+      ∃ o, (⟨h, oi⟩, (bn, txi, o)) ∈ createdBy (blocksOf es) ∧ touches k o = true := by
+  rw [outputs_recorded_aux scripts k hk es hw es [] (by simp)]
   constructor
   · rintro ⟨o, tx, hat, hh, ho, ht⟩
     exact ⟨o, (mem_createdBy _ _ _ _ _).mpr ⟨tx, hat, hh, ho⟩, (touches_iff _ _).mpr ht⟩
@@ -783,42 +1074,47 @@ theorem outputs_recorded (scripts : List (SKey × Nat)) (chain : List Block)
     obtain ⟨tx, hat, hh, ho⟩ := (mem_createdBy _ _ _ _ _).mp hm
     exact ⟨o, tx, hat, hh, ho, (touches_iff _ _).mp ht⟩
 
-/-- **C03 (inputs recorded).**  Every input of the chain that spends an output created on the
-chain and touching a registered script has its history entry under the spending position. -/
-theorem inputs_recorded (scripts : List (SKey × Nat)) (chain : List Block)
-    (hw : WellFormed chain) (k : SKey) (hk : k ∈ scripts.map (·.1))
-    (pre post : List Block) (b : Block) (hc : chain = pre ++ [b] ++ post)
+/-- **C03 (inputs recorded, histories with fetches).**  Every input of the chain that spends an
+output created on the chain and touching a registered script has its history entry under the
+spending position — also when the creating transaction was fetched before its block was
+filtered. -/
+theorem inputs_recorded_with_fetches (scripts : List (SKey × Nat)) (es : List Event)
+    (hw : WellFormedHistory es) (k : SKey) (hk : k ∈ scripts.map (·.1))
+    (epre epost : List Event) (b : Block) (hc : es = epre ++ [Event.block b] ++ epost)
     (tpre tpost : List Tx) (tx : Tx) (hb : b.txs = tpre ++ [tx] ++ tpost)
     (ipre ipost : List OutPt) (i : OutPt) (hi : tx.inputs = ipre ++ [i] ++ ipost)
-    (e : OutPt × (Nat × Nat × Output)) (he : e ∈ createdBy chain) (hei : e.1 = i)
+    (e : OutPt × (Nat × Nat × Output)) (he : e ∈ createdBy (blocksOf es)) (hei : e.1 = i)
     (ht : touches k e.2.2.2 = true) :
-    lookup (chain.foldl filterBlock (emptyIndex scripts)).hist
+    lookup (runEvents (emptyIndex scripts) es).hist
       ⟨k, b.number, tpre.length, ipre.length, false⟩ = some tx.hash := by
-  subst hc
   have hb' : b.txs = tpre ++ tx :: tpost := by simp [hb]
   have hi' : tx.inputs[ipre.length]? = some i := by simp [hi]
-  have hw' : WellFormed (pre ++ [b]) := wf_prefix hw
-  have inv := txInv_fold scripts pre (wf_prefix hw')
+  have hfull : blocksOf es = blocksOf epre ++ [b] ++ blocksOf epost := by
+    rw [hc, blocksOf_append, blocksOf_snoc_block]
+  have hwf : WellFormed (blocksOf epre ++ [b] ++ blocksOf epost) := hfull ▸ hw.chain
+  have hw' : WellFormed (blocksOf epre ++ [b]) := wf_prefix hwf
+  have inv := txInv_events scripts es hw epre (Event.block b :: epost) (by rw [hc]; simp)
   have hreg := registered_of_mem inv.scripts hk
-  -- later blocks keep the entry
-  rw [List.foldl_append, List.foldl_append]
-  simp only [List.foldl_cons, List.foldl_nil]
-  have hpost : ∀ b' ∈ post, b'.number ≠
+  -- later blocks and fetches keep the entry
+  rw [hc, runEvents_append, runEvents_append]
+  have hpost : ∀ b' ∈ blocksOf epost, b'.number ≠
       (⟨k, b.number, tpre.length, ipre.length, false⟩ : HistKey).bn := by
     intro b' hb'' e
-    have := hw.numbers
+    have := hwf.numbers
     rw [List.map_append, List.pairwise_append] at this
     have := this.2.2 b.number (by simp) b'.number (List.mem_map_of_mem hb'')
     simp only at e
     omega
   rw [hist_preserved _ _ _ hpost]
-  generalize pre.foldl filterBlock (emptyIndex scripts) = s at inv hreg
+  change lookup (filterBlock (runEvents (emptyIndex scripts) epre) b).hist _ = _
+  generalize runEvents (emptyIndex scripts) epre = s at inv hreg
   -- the creating transaction is found
   obtain ⟨op, bn', txi', o⟩ := e
   simp only at hei ht
   subst hei
+  rw [hfull] at he
   obtain ⟨t', hat, hh, ho⟩ := (mem_createdBy _ _ _ _ _).mp he
-  obtain ⟨hpos, _⟩ := input_earlier hw rfl hb' (List.mem_of_getElem? hi') hat hh
+  obtain ⟨hpos, _⟩ := input_earlier hwf rfl hb' (List.mem_of_getElem? hi') hat hh
   have ht' := (touches_iff _ _).mp ht
   have hprev : prevOf s (accB b.number 0 [] tpre) op.tx = some ⟨bn', txi', t'⟩ := by
     rw [← hh]
@@ -839,6 +1135,51 @@ theorem inputs_recorded (scripts : List (SKey × Nat)) (chain : List Block)
   obtain ⟨_, e2⟩ := List.append_inj hb2 hlen
   cases e2
   exact hh2.symm
+
+/-! ### histories without fetches (the statements of the first round) -/
+
+/-- **C03 (live cells).**  Index every block of a well-formed chain in order, starting from an
+empty index with any set of registered scripts: for every registered script the live-cell
+keyspace holds exactly the cells that are live on the chain — right out point, creating block
+and position — no spent or phantom cell, none missing. -/
+theorem cells_equal_chain (scripts : List (SKey × Nat)) (chain : List Block)
+    (hw : WellFormed chain) (hs : (scripts.map (·.1)).Nodup) (k : SKey) (hk : k ∈ scripts.map (·.1))
+    (ck : CellKey) (h : Nat) :
+    (ck.s = k ∧ lookup (chain.foldl filterBlock (emptyIndex scripts)).cells ck = some h) ↔
+      (ck, h) ∈ liveCells chain k := by
+  have _ := hs  -- not needed: duplicate registrations are harmless
+  have := cells_equal_chain_with_fetches scripts (chain.map .block) (wfh_of_chain hw) k hk ck h
+  rw [runEvents_map_block, blocksOf_map_block] at this
+  exact this
+
+/-- **C03 (activity).**  Every output of the chain that touches a registered script has its
+history entry, and every history entry of kind output is such an output. -/
+theorem outputs_recorded (scripts : List (SKey × Nat)) (chain : List Block)
+    (hw : WellFormed chain) (k : SKey) (hk : k ∈ scripts.map (·.1))
+    (bn txi oi h : Nat) :
+    lookup (chain.foldl filterBlock (emptyIndex scripts)).hist ⟨k, bn, txi, oi, true⟩ = some h ↔
+      ∃ o, (⟨h, oi⟩, (bn, txi, o)) ∈ createdBy chain ∧ touches k o = true := by
+  have := outputs_recorded_with_fetches scripts (chain.map .block) (wfh_of_chain hw) k hk
+    bn txi oi h
+  rw [runEvents_map_block, blocksOf_map_block] at this
+  exact this
+
+/-- **C03 (inputs recorded).**  Every input of the chain that spends an output created on the
+chain and touching a registered script has its history entry under the spending position. -/
+theorem inputs_recorded (scripts : List (SKey × Nat)) (chain : List Block)
+    (hw : WellFormed chain) (k : SKey) (hk : k ∈ scripts.map (·.1))
+    (pre post : List Block) (b : Block) (hc : chain = pre ++ [b] ++ post)
+    (tpre tpost : List Tx) (tx : Tx) (hb : b.txs = tpre ++ [tx] ++ tpost)
+    (ipre ipost : List OutPt) (i : OutPt) (hi : tx.inputs = ipre ++ [i] ++ ipost)
+    (e : OutPt × (Nat × Nat × Output)) (he : e ∈ createdBy chain) (hei : e.1 = i)
+    (ht : touches k e.2.2.2 = true) :
+    lookup (chain.foldl filterBlock (emptyIndex scripts)).hist
+      ⟨k, b.number, tpre.length, ipre.length, false⟩ = some tx.hash := by
+  have := inputs_recorded_with_fetches scripts (chain.map .block) (wfh_of_chain hw) k hk
+    (pre.map .block) (post.map .block) b (by rw [hc]; simp) tpre tpost tx hb ipre ipost i hi e
+    (by rw [blocksOf_map_block]; exact he) hei ht
+  rw [runEvents_map_block] at this
+  exact this
 
 /-- **C03 (a fetched transaction does not disturb the index).**  `add_fetched_tx` never changes
 the cell or history keyspaces, and keeps the stored position of a transaction that
@@ -889,5 +1230,153 @@ example :
     ((filterBlock (emptyIndex [(k, 0)]) ⟨1, 11, [t1, t2]⟩).cells.map (·.1)) =
       [⟨k, 1, 0, 1⟩, ⟨k, 1, 1, 0⟩] := by
   rfl
+
+/-! ## the look-up order of the pinned tree (negative witness) -/
+
+/-- **the pinned tree's behaviour, kept only for the witness below**: the batch of `filter_block`
+with the creating transaction of an input looked up in the store FIRST and among the earlier
+transactions of this block second (`Index.blockOps` asks the in-block map first) -/
+def blockOpsStoreFirst (s : St) (b : Block) : List Op :=
+  let rec go (txi : Nat) (inBlock : List (Nat × TxRec)) : List Tx → List Op
+    | [] => []
+    | tx :: rest =>
+      let ins := (enum tx.inputs).flatMap (fun (ii, i) =>
+        let prev := match lookup s.txs i.tx with
+          | some r => some r
+          | none => lookup inBlock i.tx
+        inputOps s b.number txi ii tx i prev)
+      let outs := (enum tx.outputs).flatMap (fun (oi, o) => outputOps s b.number txi oi tx o)
+      ins ++ outs ++ go (txi + 1) (put inBlock tx.hash ⟨b.number, txi, tx⟩) rest
+  go 0 [] b.txs
+
+/-- `filter_block` of the pinned tree (store-first look-up) -/
+def filterBlockStoreFirst (s : St) (b : Block) : St :=
+  let ops := blockOpsStoreFirst s b
+  let ops := if ops.isEmpty then ops else ops ++ [.putHeader b.number b.hash]
+  ops.foldl applyOp s
+
+/-- Witness kept from the pinned tree: transaction `t1` is fetched (stored with index `u32::MAX`)
+*before* its block is filtered; `t2`, in the same block, spends its output 0.  On the chain no
+cell of the script is live.  With the store-first look-up the spend found the fetched record,
+deleted the cell key `(1, u32::MAX, 0)` that does not exist and left the phantom live cell
+`(1, 0, 0)`; with the in-block map asked first the cell disappears.  Without the fetch both
+orders agree. -/
+theorem witness_fetched_before_filtered :
+    let k : SKey := ⟨7, false⟩
+    let t1 : Tx := ⟨1, [], [⟨7, none, 100⟩]⟩
+    let t2 : Tx := ⟨2, [⟨1, 0⟩], [⟨9, none, 100⟩]⟩
+    let b : Block := ⟨1, 11, [t1, t2]⟩
+    let s0 := emptyIndex [(k, 0)]
+    let s1 := addFetchedTx s0 t1 1 11
+    liveCells [b] k = [] ∧
+    (filterBlockStoreFirst s1 b).cells = [(⟨k, 1, 0, 0⟩, 1)] ∧
+    (filterBlock s1 b).cells = [] ∧
+    (filterBlockStoreFirst s0 b).cells = [] := by
+  refine ⟨?_, ?_, ?_, ?_⟩ <;> rfl
+
+/-! ## non-vacuity -/
+
+/-- executable form of `WellFormed.inputsEarlier` -/
+private def inputsEarlierB (chain : List Block) : Bool :=
+  (enum chain).all fun (bi, b) =>
+    (enum b.txs).all fun (ti, tx) =>
+      tx.inputs.all fun i =>
+        !((chain.flatMap (·.txs)).any (fun t => t.hash = i.tx)) ||
+          (createdBy (chain.take bi ++ [{ b with txs := b.txs.take ti }])).any (fun e => e.1 = i)
+
+private theorem inputsEarlier_of_check {chain : List Block} (h : inputsEarlierB chain = true) :
+    ∀ pre b post, chain = pre ++ [b] ++ post →
+    ∀ tpre tx tpost, b.txs = tpre ++ [tx] ++ tpost → ∀ i ∈ tx.inputs,
+      (∃ t ∈ chain.flatMap (·.txs), t.hash = i.tx) →
+      ∃ e ∈ createdBy (pre ++ [{ b with txs := tpre }]), e.1 = i := by
+  intro pre b post hc tpre tx tpost hb i hi hex
+  unfold inputsEarlierB at h
+  rw [List.all_eq_true] at h
+  have h1 := h (pre.length, b) ((mem_enum _ _ _).mpr (by rw [hc]; simp))
+  simp only at h1
+  rw [List.all_eq_true] at h1
+  have h2 := h1 (tpre.length, tx) ((mem_enum _ _ _).mpr (by rw [hb]; simp))
+  simp only at h2
+  rw [List.all_eq_true] at h2
+  have h3 := h2 i hi
+  have e1 : chain.take pre.length = pre := by rw [hc]; simp
+  have e2 : b.txs.take tpre.length = tpre := by rw [hb]; simp
+  rw [e1, e2, Bool.or_eq_true] at h3
+  rcases h3 with h3 | h3
+  · exfalso
+    obtain ⟨t, ht, e⟩ := hex
+    have : (chain.flatMap (·.txs)).any (fun t => decide (t.hash = i.tx)) = true :=
+      List.any_eq_true.mpr ⟨t, ht, by simpa using e⟩
+    rw [this] at h3
+    cases h3
+  · obtain ⟨e, he, hei⟩ := List.any_eq_true.mp h3
+    exact ⟨e, he, by simpa using hei⟩
+
+/-- executable form of `WellFormedHistory` -/
+private def wfhB (es : List Event) : Bool :=
+  let chain := blocksOf es
+  decide ((chain.map (·.number)).Pairwise (· < ·)) &&
+  decide ((chain.flatMap (fun b => b.txs.map (·.hash))).Nodup) &&
+  decide ((spentBy chain).Nodup) &&
+  inputsEarlierB chain &&
+  es.all fun e => match e with
+    | .fetchedTx tx bn _ => chain.any (fun b => decide (b.number = bn) && b.txs.contains tx)
+    | _ => true
+
+private theorem wfh_of_check {es : List Event} (h : wfhB es = true) : WellFormedHistory es := by
+  unfold wfhB at h
+  simp only [Bool.and_eq_true, decide_eq_true_eq] at h
+  obtain ⟨⟨⟨⟨h1, h2⟩, h3⟩, h4⟩, h5⟩ := h
+  refine ⟨⟨h1, h2, h3, inputsEarlier_of_check h4⟩, ?_⟩
+  intro tx bn bh hm
+  have := List.all_eq_true.mp h5 _ hm
+  simp only at this
+  obtain ⟨b, hb, hc⟩ := List.any_eq_true.mp this
+  simp only [Bool.and_eq_true, decide_eq_true_eq, List.contains_eq_mem] at hc
+  exact ⟨b, hb, hc.1, hc.2⟩
+
+/-- a history for the examples: `t1` is fetched before its block is filtered (with a header hash
+that is not its block's) and again afterwards; `t2` spends output 0 of `t1` in the same block;
+`t3`, in the next block, spends output 0 of `t2`, which was fetched in between; `t4` touches no
+registered script and is fetched before its block -/
+private def exHistory : List Event :=
+  let t1 : Tx := ⟨1, [], [⟨7, none, 100⟩, ⟨7, some 3, 50⟩]⟩
+  let t2 : Tx := ⟨2, [⟨1, 0⟩], [⟨7, none, 90⟩]⟩
+  let t3 : Tx := ⟨3, [⟨2, 0⟩, ⟨40, 1⟩], [⟨8, some 3, 80⟩]⟩
+  let t4 : Tx := ⟨4, [], [⟨9, none, 5⟩]⟩
+  [.fetchedTx t1 1 99, .fetchedHeader 1 99, .fetchedTx t4 2 12, .block ⟨1, 11, [t1, t2]⟩,
+   .fetchedTx t2 1 11, .fetchedTx t1 1 11, .block ⟨2, 12, [t4, t3]⟩, .fetchedTx t3 2 12]
+
+/-- non-vacuity of the hypotheses of `cells_equal_chain_with_fetches`: a well-formed history with
+a fetch before the block and a same-block spender -/
+example : WellFormedHistory exHistory := wfh_of_check (by decide)
+
+/-- …on which the index holds exactly the live cells: output 1 of `t1` under both its lock script
+and (for the script registered as type script) its type script, and the output of `t3` -/
+example :
+    (runEvents (emptyIndex [(⟨7, false⟩, 0), (⟨3, true⟩, 0)]) exHistory).cells.map (·.1) =
+      [⟨⟨7, false⟩, 1, 0, 1⟩, ⟨⟨3, true⟩, 1, 0, 1⟩, ⟨⟨3, true⟩, 2, 1, 0⟩] ∧
+    liveCells (blocksOf exHistory) ⟨7, false⟩ = [(⟨⟨7, false⟩, 1, 0, 1⟩, 1)] ∧
+    liveCells (blocksOf exHistory) ⟨3, true⟩ =
+      [(⟨⟨3, true⟩, 1, 0, 1⟩, 1), (⟨⟨3, true⟩, 2, 1, 0⟩, 3)] := by
+  refine ⟨?_, ?_, ?_⟩ <;> rfl
+
+/-- …and the pinned tree's order leaves phantom cells on it (output 0 of `t1`, spent by `t2`) -/
+example :
+    ((exHistory.foldl (fun s e => match e with
+        | .block b => filterBlockStoreFirst s b
+        | e => stepEvent s e) (emptyIndex [(⟨7, false⟩, 0)])).cells.map (·.1)).contains
+      ⟨⟨7, false⟩, 1, 0, 0⟩ = true := by
+  rfl
+
+/-- the hypothesis is needed: a "fetched" transaction that is not the chain's transaction of that
+hash (here: a different output list under hash 1) is outside `WellFormedHistory` -/
+example : ¬ WellFormedHistory
+    [.fetchedTx ⟨1, [], []⟩ 1 11, .block ⟨1, 11, [⟨1, [], [⟨7, none, 100⟩]⟩]⟩] := by
+  intro h
+  obtain ⟨b, hb, _, ht⟩ := h.fetched _ _ _ List.mem_cons_self
+  simp [blocksOf, Event.block?] at hb
+  subst hb
+  simp at ht
 
 end C03
